@@ -219,7 +219,20 @@ impl Env {
                 let (pos, path) = self.pos_of(*h)?;
                 let hd = self.handles[*h].as_mut().unwrap();
                 let mut buf = vec![0u8; *n];
-                let k = hd.s.read(&mut buf).map_err(es)?;
+                let k = match hd.s.read(&mut buf) {
+                    Ok(k) => k,
+                    Err(e) => {
+                        // io::Read: "if an error is returned then it must be guaranteed that no bytes
+                        // were read" - a caller that retries must get the bytes it would have got
+                        let was = pause(&self.ctl);
+                        let after = hd.s.stream_position();
+                        resume(&self.ctl, was);
+                        if !matches!(after, Ok(a) if a == pos) {
+                            problems.push(("wrongdata".into(), format!("step {} read({}) failed but moved the position from {} to {:?}: a retry skips bytes", idx, n, pos, after)));
+                        }
+                        return Err(es(e));
+                    }
+                };
                 let was = pause(&self.ctl);
                 let after = hd.s.stream_position();
                 resume(&self.ctl, was);
@@ -249,7 +262,18 @@ impl Env {
                     None => self.content.get(&path).cloned().flatten(),
                 };
                 let slen = {
-                    let sl = hd.s.fill_buf().map_err(es)?;
+                    let sl = match hd.s.fill_buf() {
+                        Ok(sl) => sl,
+                        Err(e) => {
+                            let was = pause(&self.ctl);
+                            let after = hd.s.stream_position();
+                            resume(&self.ctl, was);
+                            if !matches!(after, Ok(a) if a == pos) {
+                                problems.push(("wrongdata".into(), format!("step {} fill_buf failed but moved the position from {} to {:?}", idx, pos, after)));
+                            }
+                            return Err(es(e));
+                        }
+                    };
                     if let Some(d) = &true_content {
                         let avail = d.len().saturating_sub(pos as usize);
                         if sl.len() > avail || (sl.is_empty() && avail > 0) {
@@ -774,6 +798,40 @@ pub fn mutating_workloads() -> Vec<(String, usize, Vec<WStep>)> {
             WStep::DropHandle(1),
         ],
     ));
+    // mini sectors are released at the tail of the mini stream (MiniFAT trimmed, root entry
+    // rewritten) by set_len, by removal and by migration, and small streams are allocated afterwards
+    v.push((
+        "mini tail released, then reused".to_string(),
+        1 << 20,
+        vec![
+            WStep::Create,
+            WStep::CreateStream(0, "/a".into()),
+            WStep::Write(0, 300),
+            WStep::Flush(0),
+            WStep::CreateStream(1, "/b".into()),
+            WStep::Write(1, 200),
+            WStep::Flush(1),
+            WStep::SetLen(1, 0),
+            WStep::Flush(1),
+            WStep::CreateStream(2, "/c".into()),
+            WStep::Write(2, 300),
+            WStep::Flush(2),
+            WStep::DropHandle(2),
+            WStep::RemoveStream("/c".into()),
+            WStep::CreateStream(2, "/e".into()),
+            WStep::Write(2, 100),
+            WStep::Flush(2),
+            WStep::SeekStart(2, 0),
+            WStep::Write(2, 5000),
+            WStep::Flush(2),
+            WStep::Write(1, 70),
+            WStep::Flush(1),
+            WStep::DropHandle(0),
+            WStep::DropHandle(1),
+            WStep::DropHandle(2),
+            WStep::CompFlush,
+        ],
+    ));
     v
 }
 
@@ -850,8 +908,12 @@ pub fn run_hist_on_fault(h: &History, plan: BTreeMap<u64, Fault>, chunk: Option<
 }
 
 /// Runs a history on a real file through the path-based constructors.
-pub fn run_hist_on_fs(h: &History, dir: &std::path::Path, tag: &str) -> Result<(Vec<String>, Vec<u8>), String> {
+/// `preexisting`: the path already holds a longer file (create must replace it).
+pub fn run_hist_on_fs(h: &History, dir: &std::path::Path, tag: &str, preexisting: bool) -> Result<(Vec<String>, Vec<u8>), String> {
     let path = dir.join(format!("c18-{}-{}.cfb", std::process::id(), tag));
+    if preexisting {
+        std::fs::write(&path, vec![0xA5u8; 300_000]).map_err(|e| e.to_string())?;
+    }
     let all_ops: Vec<ops::Op> = crate::seeds::seed_ops(&h.seed)?.into_iter().chain(h.ops.iter().cloned()).collect();
     let half = all_ops.len() / 2;
     let mut outcomes = Vec::new();
@@ -860,7 +922,7 @@ pub fn run_hist_on_fs(h: &History, dir: &std::path::Path, tag: &str) -> Result<(
         {
             // cfb::create only makes V4 files; V3 goes through File + create_with_version
             let mut comp = if h.version == 4 {
-                cfb::create(&path).map_err(|e| format!("cfb::create: {}", e))?
+                if half % 2 == 0 { cfb::create(&path) } else { cfb::OpenOptions::new().create(&path) }.map_err(|e| format!("cfb::create: {}", e))?
             } else {
                 let f = std::fs::OpenOptions::new().read(true).write(true).create(true).truncate(true).open(&path).map_err(|e| e.to_string())?;
                 CompoundFile::create_with_version(cfb::Version::V3, f).map_err(|e| format!("create: {}", e))?
@@ -947,18 +1009,25 @@ pub fn c18_explore(ctx: &Ctx, hists: &[History], chunks: &[usize], bufs: &[usize
         let again = run_hist_on_fault(h, BTreeMap::new(), None, None, None);
         runs.fetch_add(1, Relaxed);
         cmp("rerun".into(), &again, json!("rerun"));
-        // (b) real file through the path-based constructors
-        match run_hist_on_fs(h, fs_dir, &format!("{}", hi)) {
-            Ok((outs, bytes)) => {
-                if outs != reference.outcomes {
-                    rep("differs", "variant fs: API results differ from the in-memory run".into(), json!("fs"));
-                } else if bytes != reference.image {
-                    rep("differs", format!("variant fs: file bytes differ from the in-memory image (len {} vs {})", bytes.len(), reference.image.len()), json!("fs"));
-                }
+        // (b) real file through the path-based constructors: on a fresh path, and (V4, where the
+        // library opens the file itself) on a path that already holds a longer file
+        for pre in [false, true] {
+            if pre && h.version != 4 {
+                continue;
             }
-            Err(e) => rep(if e.starts_with("PANIC") { "panic" } else { "differs" }, format!("variant fs: {}", e), json!("fs")),
+            let vname = if pre { "fs-over-existing-file" } else { "fs" };
+            match run_hist_on_fs(h, fs_dir, &format!("{}{}", hi, if pre { "p" } else { "" }), pre) {
+                Ok((outs, bytes)) => {
+                    if outs != reference.outcomes {
+                        rep("differs", format!("variant {}: API results differ from the in-memory run", vname), json!(vname));
+                    } else if bytes != reference.image {
+                        rep("differs", format!("variant {}: file bytes differ from the in-memory image (len {} vs {})", vname, bytes.len(), reference.image.len()), json!(vname));
+                    }
+                }
+                Err(e) => rep(if e.starts_with("PANIC") { "panic" } else { "differs" }, format!("variant {}: {}", vname, e), json!(vname)),
+            }
+            runs.fetch_add(1, Relaxed);
         }
-        runs.fetch_add(1, Relaxed);
         // (c) chunked transfers
         for &c in chunks {
             let r = run_hist_on_fault(h, BTreeMap::new(), Some(c), None, None);
